@@ -184,6 +184,11 @@ func init() {
 		{"base128RejectsLeading80", hasIfMentioning(a, "parseBase128Int", []string{"shifted == 0", "0x80"}, "base128RejectsLeading80",
 			"is there a check `shifted == 0 && b == 0x80` (upstream's minimality test for base-128 integers)?")},
 		{"setOfSorted", hasType(m, "setEncoder", "setOfSorted", "does marshal.go have upstream's setEncoder (SET OF sorted on Marshal)?")},
+		{"genTimeFraction", func() string {
+			fd := mustFunc(a, "parseGeneralizedTime")
+			has := strings.Contains(src(fd.Body), `.999999999Z0700`)
+			return fmt.Sprintf("/-- generated from %s func parseGeneralizedTime: does the layout carry upstream's optional fractional seconds? -/\ndef genTimeFraction : Bool := %v\n", a, has)
+		}},
 		{"isPrintable", retPredicate(a, "isPrintable", "b", "isPrintable", "(b : Nat) (asterisk ampersand : Bool)", map[string]string{"asterisk": "asterisk", "ampersand": "ampersand"})},
 		{"isNumeric", retPredicate(a, "isNumeric", "b", "isNumeric", "(b : Nat)", nil)},
 		{"iso8859Reject", loopReject(a, "couldBeISO8859_1", "iso8859Reject")},
